@@ -9,10 +9,37 @@ import (
 type RootSet interface {
 	refTo(pkg, schema string) (*RefSchema, bool)
 	referencePackage(name string) *Package
+	buildInProgress() *buildState
+}
+
+// buildState is kept by a RootSet while schemas are built from descriptors.
+type buildState struct {
+	// created lists the references added by the build in progress
+	created []*RefSchema
+
+	// flattenChain holds the object being built and the objects it is being
+	// flattened into, outermost first. Everything in the chain ends up in
+	// the same JSON object.
+	flattenChain []string
+}
+
+func (bs *buildState) inFlattenChain(name string) bool {
+	for _, inChain := range bs.flattenChain {
+		if inChain == name {
+			return true
+		}
+	}
+	return false
 }
 
 type SchemaSet struct {
 	Packages map[string]*Package
+
+	build buildState
+}
+
+func (ss *SchemaSet) buildInProgress() *buildState {
+	return &ss.build
 }
 
 func newSchemaSet() *SchemaSet {
